@@ -69,7 +69,8 @@ type c15Op struct {
 }
 
 var c15Transient = map[string]bool{"http500": true, "http502": true, "http503": true, "http504": true, "refused": true, "reseteof": true, "stall": true,
-	"be:retryable": true, "be:pkcs11-fatal": true, "be:hang": true}
+	"be:retryable": true, "be:pkcs11-fatal": true, "be:hang": true,
+	"reset": true, "backlog": true}
 var c15Permanent = map[string]bool{"http400": true, "http403": true, "http404": true, "be:usage": true, "be:notimpl": true, "be:pkcs11-user": true}
 
 // everything else (malformed JSON, empty 200, 501, generic back-end error) is
@@ -229,7 +230,7 @@ func classify(att *c15Attempt, err error) {
 		switch att.Seen {
 		case "ok":
 			att.Class = 'S'
-		case "usage", "nonretryable":
+		case "usage", "nonretryable", "http403":
 			att.Class = 'P'
 		case "retryable", "ctx":
 			att.Class = 'T'
@@ -430,20 +431,20 @@ func c15Run(r *core.Run) {
 					if op.UseHandleOf.Handle == nil {
 						continue
 					}
-					c15Do(w, rt, wt, op, op.UseHandleOf.Handle, gens)
+					c15Do(w, rt.cur, wt, op, op.UseHandleOf.Handle, gens)
 					allOps = append(allOps, op)
 					continue
 				}
 				if op.Kind == "sign" && (key == nil || key.Config().Name() != op.Label) {
 					// need a handle first
 					pre := &c15Op{ID: 1000 + op.ID, Task: name, Kind: "getkey", Label: op.Label, CtxMode: "none", Note: "pre-sign"}
-					key = c15Do(w, rt, wt, pre, nil, gens)
+					key = c15Do(w, rt.cur, wt, pre, nil, gens)
 					allOps = append(allOps, pre)
 					if key == nil {
 						continue
 					}
 				}
-				k := c15Do(w, rt, wt, op, key, gens)
+				k := c15Do(w, rt.cur, wt, op, key, gens)
 				allOps = append(allOps, op)
 				if op.Kind == "getkey" && k != nil {
 					key = k
@@ -469,10 +470,10 @@ func c15Run(r *core.Run) {
 		for _, l := range labels {
 			op := &c15Op{ID: 2000 + len(allOps), Task: "main", Kind: "sign", Label: l, CtxMode: "none", Final: true}
 			pre := &c15Op{ID: 3000 + len(allOps), Task: "main", Kind: "getkey", Label: l, CtxMode: "none", Final: true}
-			key := c15Do(w, rt, wt, pre, nil, gens)
+			key := c15Do(w, rt.cur, wt, pre, nil, gens)
 			allOps = append(allOps, pre)
 			if key != nil {
-				c15Do(w, rt, wt, op, key, gens)
+				c15Do(w, rt.cur, wt, op, key, gens)
 				allOps = append(allOps, op)
 			}
 		}
@@ -493,150 +494,167 @@ func c15Run(r *core.Run) {
 	}
 
 	// ---- oracle: the retry policy as stated ----
+	jp := &c15Policy{limit: limit, attemptTimeout: attemptTimeout, usageMsg: usageMsg, rotatedAt: rotatedAt, cacheS: cacheS, gens: gens}
 	for _, op := range allOps {
-		r.Evals++
-		var seq []byte
-		for _, a := range op.Attempts {
-			seq = append(seq, a.Class)
-			switch {
-			case a.Outcome != "pass":
-				r.Fault("rpc-" + a.Outcome)
-			case a.Backend != "" && a.Consumed:
-				r.Fault("backend-" + strings.SplitN(a.Backend, "@", 2)[0])
+		c15Judge(r, op, jp)
+	}
+}
+
+// c15Policy is what the reference retry policy needs to know about a run.
+type c15Policy struct {
+	limit          int
+	attemptTimeout time.Duration
+	usageMsg       string
+	rotatedAt      time.Duration
+	cacheS         int
+	gens           map[string][]*world.KeyMaterial
+}
+
+// c15Judge checks one finished operation against the retry policy as stated.
+func c15Judge(r *core.Run, op *c15Op, jp *c15Policy) {
+	limit, attemptTimeout, usageMsg, rotatedAt, cacheS, gens := jp.limit, jp.attemptTimeout, jp.usageMsg, jp.rotatedAt, jp.cacheS, jp.gens
+	r.Evals++
+	var seq []byte
+	for _, a := range op.Attempts {
+		seq = append(seq, a.Class)
+		switch {
+		case a.Outcome != "pass":
+			r.Fault("rpc-" + a.Outcome)
+		case a.Backend != "" && a.Consumed:
+			r.Fault("backend-" + strings.SplitN(a.Backend, "@", 2)[0])
+		}
+	}
+	for _, a := range op.Attempts {
+		if a.Outcome != "pass" || !a.Consumed || a.Resp == nil {
+			continue
+		}
+		be := strings.SplitN(a.Backend, "@", 2)[0]
+		rr := a.Resp
+		bad := ""
+		switch be {
+		case "usage":
+			if !rr.Usage || rr.Retryable || rr.Key != op.Label || rr.Err != usageMsg {
+				bad = "a key-usage error must cross the RPC boundary as Usage=true, Retryable=false with the key name and message intact"
+			}
+		case "notimpl", "pkcs11-user":
+			if rr.Err == "" || rr.Retryable || rr.Usage {
+				bad = "a permanent back-end error must be marked not retryable"
+			}
+		case "retryable", "pkcs11-fatal":
+			if rr.Err == "" || !rr.Retryable || rr.Usage {
+				bad = "a transient back-end error must be marked retryable"
 			}
 		}
-		for _, a := range op.Attempts {
-			if a.Outcome != "pass" || !a.Consumed || a.Resp == nil {
-				continue
+		if bad != "" {
+			r.Failf("C15.handler-classification", be, "%s; worker answered Err=%q Retryable=%v Usage=%v Key=%q (op%d %s attempt %d)", bad, rr.Err, rr.Retryable, rr.Usage, rr.Key, op.ID, op.Kind, a.N)
+		}
+	}
+	cancelled := op.CtxMode != "none" && op.End >= op.Start+op.CtxAt
+	r.Sig(fmt.Sprintf("%s/%s/ctx=%s/cancelled=%v/ok=%v", op.Kind, seq, op.CtxMode, cancelled, op.Err == nil))
+	key := op.Kind
+	desc := fmt.Sprintf("op%d %s(%s) by %s attempts=%s ctx=%s@%v start=%v end=%v err=%v", op.ID, op.Kind, op.Label, op.Task, seq, op.CtxMode, op.CtxAt, op.Start, op.End, op.Err)
+	// 1. attempt limit
+	if len(op.Attempts) > limit {
+		r.Failf("C15.too-many-attempts", key, "%d attempts with a configured limit of %d: %s", len(op.Attempts), limit, desc)
+	}
+	ctxEnd := time.Duration(-1)
+	if op.CtxMode != "none" {
+		ctxEnd = op.Start + op.CtxAt
+	}
+	for i, a := range op.Attempts {
+		last := i == len(op.Attempts)-1
+		if a.End-a.Start > attemptTimeout {
+			r.Failf("C15.attempt-timeout", key, "attempt %d ran %v, longer than the configured per-attempt timeout %v: %s", a.N, a.End-a.Start, attemptTimeout, desc)
+		}
+		if ctxEnd >= 0 && a.Start > ctxEnd {
+			r.Failf("C15.attempt-after-cancel", key, "attempt %d started at %v, after the caller's context ended at %v: %s", a.N, a.Start, ctxEnd, desc)
+		}
+		if last {
+			continue
+		}
+		// 2. a further attempt only after a transient (or unclassified) outcome
+		switch a.Class {
+		case 'P':
+			r.Failf("C15.retry-after-permanent", key+"/"+a.effective(), "attempt %d ended in permanent outcome %s but attempt %d followed: %s", a.N, a.effective(), a.N+1, desc)
+		case 'S':
+			r.Failf("C15.retry-after-success", key, "attempt %d succeeded but attempt %d followed: %s", a.N, a.N+1, desc)
+		}
+		// back-off: positive, non-decreasing gaps
+		gap := op.Attempts[i+1].Start - a.End
+		if gap <= 0 {
+			r.Failf("C15.no-backoff", key, "attempt %d started %v after attempt %d ended: no back-off: %s", a.N+1, gap, a.N, desc)
+		}
+		if i > 0 {
+			prev := a.Start - op.Attempts[i-1].End
+			if gap < prev {
+				r.Failf("C15.backoff-shrinks", key, "back-off before attempt %d (%v) is shorter than before attempt %d (%v): %s", a.N+1, gap, a.N, prev, desc)
 			}
-			be := strings.SplitN(a.Backend, "@", 2)[0]
-			rr := a.Resp
-			bad := ""
-			switch be {
-			case "usage":
-				if !rr.Usage || rr.Retryable || rr.Key != op.Label || rr.Err != usageMsg {
-					bad = "a key-usage error must cross the RPC boundary as Usage=true, Retryable=false with the key name and message intact"
+		}
+	}
+	if n := len(op.Attempts); n > 0 {
+		la := op.Attempts[n-1]
+		ctxOver := ctxEnd >= 0 && op.End >= ctxEnd
+		switch la.Class {
+		case 'S':
+			// 3. success of the last attempt is the operation's result
+			if op.Err != nil && !ctxOver {
+				r.Failf("C15.success-reported-as-failure", key, "last attempt succeeded but the operation failed: %s", desc)
+			}
+		case 'T':
+			if op.Err == nil {
+				r.Failf("C15.failure-reported-as-success", key, "no attempt succeeded but the operation reports success: %s", desc)
+			} else if n < limit && !ctxOver {
+				// 5. transient failure with attempts left and a live caller: must be retried
+				r.Failf("C15.transient-not-retried", key+"/"+la.effective(), "attempt %d of %d ended in transient outcome %s, the caller was still waiting, but no retry followed: %s", n, limit, la.effective(), desc)
+			}
+		case 'P':
+			if op.Err == nil {
+				r.Failf("C15.failure-reported-as-success", key, "permanent failure but the operation reports success: %s", desc)
+			} else if la.Seen == "usage" {
+				var ue token.KeyUsageError
+				if !errors.As(op.Err, &ue) {
+					r.Failf("C15.classification-lost", "usage", "back-end reported a key-usage error but the caller sees %T: %s", op.Err, desc)
+				} else if ue.Key != op.Label || ue.Err == nil || ue.Err.Error() != usageMsg {
+					r.Failf("C15.classification-lost", "usage-detail", "key-usage error arrived altered (key %q, message %v): %s", ue.Key, ue.Err, desc)
 				}
-			case "notimpl", "pkcs11-user":
-				if rr.Err == "" || rr.Retryable || rr.Usage {
-					bad = "a permanent back-end error must be marked not retryable"
-				}
-			case "retryable", "pkcs11-fatal":
-				if rr.Err == "" || !rr.Retryable || rr.Usage {
-					bad = "a transient back-end error must be marked retryable"
-				}
 			}
-			if bad != "" {
-				r.Failf("C15.handler-classification", be, "%s; worker answered Err=%q Retryable=%v Usage=%v Key=%q (op%d %s attempt %d)", bad, rr.Err, rr.Retryable, rr.Usage, rr.Key, op.ID, op.Kind, a.N)
+		case 'U':
+			if op.Err == nil {
+				r.Failf("C15.failure-reported-as-success", key, "no attempt succeeded but the operation reports success: %s", desc)
 			}
 		}
-		cancelled := op.CtxMode != "none" && op.End >= op.Start+op.CtxAt
-		r.Sig(fmt.Sprintf("%s/%s/ctx=%s/cancelled=%v/ok=%v", op.Kind, seq, op.CtxMode, cancelled, op.Err == nil))
-		key := op.Kind
-		desc := fmt.Sprintf("op%d %s(%s) by %s attempts=%s ctx=%s@%v start=%v end=%v err=%v", op.ID, op.Kind, op.Label, op.Task, seq, op.CtxMode, op.CtxAt, op.Start, op.End, op.Err)
-		// 1. attempt limit
-		if len(op.Attempts) > limit {
-			r.Failf("C15.too-many-attempts", key, "%d attempts with a configured limit of %d: %s", len(op.Attempts), limit, desc)
+	} else if op.Err == nil {
+		r.Failf("C15.failure-reported-as-success", key, "operation reports success without a single attempt: %s", desc)
+	}
+	if op.Err == nil && op.Note != "" && strings.HasPrefix(op.Note, "BAD:") {
+		r.Failf("C15.wrong-result", key, "%s: %s", op.Note[4:], desc)
+	}
+	// 4. cancellation ends the operation promptly with an error
+	if ctxEnd >= 0 && op.End >= ctxEnd {
+		if op.End-ctxEnd > time.Second {
+			r.Failf("C15.cancel-not-prompt", key, "caller's context ended at %v but the operation returned only at %v: %s", ctxEnd, op.End, desc)
 		}
-		ctxEnd := time.Duration(-1)
-		if op.CtxMode != "none" {
-			ctxEnd = op.Start + op.CtxAt
+		if op.Err == nil && op.End > ctxEnd {
+			r.Failf("C15.cancel-ignored", key, "caller's context ended at %v before the operation returned, yet it reports success: %s", ctxEnd, desc)
 		}
-		for i, a := range op.Attempts {
-			last := i == len(op.Attempts)-1
-			if a.End-a.Start > attemptTimeout {
-				r.Failf("C15.attempt-timeout", key, "attempt %d ran %v, longer than the configured per-attempt timeout %v: %s", a.N, a.End-a.Start, attemptTimeout, desc)
-			}
-			if ctxEnd >= 0 && a.Start > ctxEnd {
-				r.Failf("C15.attempt-after-cancel", key, "attempt %d started at %v, after the caller's context ended at %v: %s", a.N, a.Start, ctxEnd, desc)
-			}
-			if last {
-				continue
-			}
-			// 2. a further attempt only after a transient (or unclassified) outcome
-			switch a.Class {
-			case 'P':
-				r.Failf("C15.retry-after-permanent", key+"/"+a.effective(), "attempt %d ended in permanent outcome %s but attempt %d followed: %s", a.N, a.effective(), a.N+1, desc)
-			case 'S':
-				r.Failf("C15.retry-after-success", key, "attempt %d succeeded but attempt %d followed: %s", a.N, a.N+1, desc)
-			}
-			// back-off: positive, non-decreasing gaps
-			gap := op.Attempts[i+1].Start - a.End
-			if gap <= 0 {
-				r.Failf("C15.no-backoff", key, "attempt %d started %v after attempt %d ended: no back-off: %s", a.N+1, gap, a.N, desc)
-			}
-			if i > 0 {
-				prev := a.Start - op.Attempts[i-1].End
-				if gap < prev {
-					r.Failf("C15.backoff-shrinks", key, "back-off before attempt %d (%v) is shorter than before attempt %d (%v): %s", a.N+1, gap, a.N, prev, desc)
-				}
-			}
+		r.Probe("cancelled-" + op.CtxMode)
+	}
+	// 7. bounded liveness once faults stopped
+	if op.Final {
+		if op.Err != nil || len(op.Attempts) != 1 {
+			r.Failf("C15.no-progress-after-faults", key, "after faults stopped an operation did not succeed on its first attempt: %s", desc)
 		}
-		if n := len(op.Attempts); n > 0 {
-			la := op.Attempts[n-1]
-			ctxOver := ctxEnd >= 0 && op.End >= ctxEnd
-			switch la.Class {
-			case 'S':
-				// 3. success of the last attempt is the operation's result
-				if op.Err != nil && !ctxOver {
-					r.Failf("C15.success-reported-as-failure", key, "last attempt succeeded but the operation failed: %s", desc)
-				}
-			case 'T':
-				if op.Err == nil {
-					r.Failf("C15.failure-reported-as-success", key, "no attempt succeeded but the operation reports success: %s", desc)
-				} else if n < limit && !ctxOver {
-					// 5. transient failure with attempts left and a live caller: must be retried
-					r.Failf("C15.transient-not-retried", key+"/"+la.effective(), "attempt %d of %d ended in transient outcome %s, the caller was still waiting, but no retry followed: %s", n, limit, la.effective(), desc)
-				}
-			case 'P':
-				if op.Err == nil {
-					r.Failf("C15.failure-reported-as-success", key, "permanent failure but the operation reports success: %s", desc)
-				} else if la.Seen == "usage" {
-					var ue token.KeyUsageError
-					if !errors.As(op.Err, &ue) {
-						r.Failf("C15.classification-lost", "usage", "back-end reported a key-usage error but the caller sees %T: %s", op.Err, desc)
-					} else if ue.Key != op.Label || ue.Err == nil || ue.Err.Error() != usageMsg {
-						r.Failf("C15.classification-lost", "usage-detail", "key-usage error arrived altered (key %q, message %v): %s", ue.Key, ue.Err, desc)
-					}
-				}
-			case 'U':
-				if op.Err == nil {
-					r.Failf("C15.failure-reported-as-success", key, "no attempt succeeded but the operation reports success: %s", desc)
-				}
-			}
-		} else if op.Err == nil {
-			r.Failf("C15.failure-reported-as-success", key, "operation reports success without a single attempt: %s", desc)
-		}
-		if op.Err == nil && op.Note != "" && strings.HasPrefix(op.Note, "BAD:") {
-			r.Failf("C15.wrong-result", key, "%s: %s", op.Note[4:], desc)
-		}
-		// 4. cancellation ends the operation promptly with an error
-		if ctxEnd >= 0 && op.End >= ctxEnd {
-			if op.End-ctxEnd > time.Second {
-				r.Failf("C15.cancel-not-prompt", key, "caller's context ended at %v but the operation returned only at %v: %s", ctxEnd, op.End, desc)
-			}
-			if op.Err == nil && op.End > ctxEnd {
-				r.Failf("C15.cancel-ignored", key, "caller's context ended at %v before the operation returned, yet it reports success: %s", ctxEnd, desc)
-			}
-			r.Probe("cancelled-" + op.CtxMode)
-		}
-		// 7. bounded liveness once faults stopped
-		if op.Final {
-			if op.Err != nil || len(op.Attempts) != 1 {
-				r.Failf("C15.no-progress-after-faults", key, "after faults stopped an operation did not succeed on its first attempt: %s", desc)
-			}
-			r.Probe("final-op")
-		}
-		// 6b. an unpinned lookup after expiry sees the rotated key
-		if op.Kind == "getkey" && op.Err == nil && rotatedAt >= 0 && op.Start > rotatedAt+time.Duration(cacheS)*time.Second && op.Note == "gen0" {
-			r.Failf("C15.stale-key-after-expiry", "getkey", "key was rotated at %v, cache lifetime is %ds, but an unpinned lookup at %v still returned the old key: %s", rotatedAt, cacheS, op.Start, desc)
-		}
-		if op.Note == "gen1" {
-			r.Probe("rotated-key-seen")
-		}
-		if op.Kind == "sign" && op.Err == nil && rotatedAt >= 0 && op.Start > rotatedAt && bytes.Equal(op.PinnedID, gens[op.Label][0].ID) {
-			r.Probe("pinned-old-id-after-rotation")
-		}
+		r.Probe("final-op")
+	}
+	// 6b. an unpinned lookup after expiry sees the rotated key
+	if op.Kind == "getkey" && op.Err == nil && rotatedAt >= 0 && op.Start > rotatedAt+time.Duration(cacheS)*time.Second && op.Note == "gen0" {
+		r.Failf("C15.stale-key-after-expiry", "getkey", "key was rotated at %v, cache lifetime is %ds, but an unpinned lookup at %v still returned the old key: %s", rotatedAt, cacheS, op.Start, desc)
+	}
+	if op.Note == "gen1" {
+		r.Probe("rotated-key-seen")
+	}
+	if op.Kind == "sign" && op.Err == nil && rotatedAt >= 0 && op.Start > rotatedAt && bytes.Equal(op.PinnedID, gens[op.Label][0].ID) {
+		r.Probe("pinned-old-id-after-rotation")
 	}
 }
 
@@ -651,11 +669,11 @@ func (a *c15Attempt) effective() string {
 }
 
 // c15Do performs one operation through the real worker client.
-func c15Do(w *world.World, rt *c15RT, wt *worker.WorkerToken, op *c15Op, key token.Key, gens map[string][]*world.KeyMaterial) token.Key {
+func c15Do(w *world.World, cur map[string]*c15Op, wt *worker.WorkerToken, op *c15Op, key token.Key, gens map[string][]*world.KeyMaterial) token.Key {
 	task := w.Sched.Current()
 	op.Task = task
-	rt.cur[task] = op
-	defer delete(rt.cur, task)
+	cur[task] = op
+	defer delete(cur, task)
 	ctx := context.Background()
 	var cancel context.CancelFunc = func() {}
 	switch op.CtxMode {
